@@ -131,8 +131,27 @@ func (p *parser) parseIPv4Number(u *Url, input string) (number int64, validation
 		validationError = true
 		return
 	}
+	// Only radix-R digits are allowed: no sign, no underscore, nothing else.
+	for _, c := range []byte(input) {
+		if !isDigitInRadix(c, R) {
+			err = &strconv.NumError{Func: "parseIPv4Number", Num: input, Err: strconv.ErrSyntax}
+			return
+		}
+	}
 	number, err = strconv.ParseInt(input, R, 64)
 	return
+}
+
+func isDigitInRadix(c byte, radix int) bool {
+	switch {
+	case '0' <= c && c <= '9':
+		return int(c-'0') < radix
+	case 'a' <= c && c <= 'f':
+		return radix == 16
+	case 'A' <= c && c <= 'F':
+		return radix == 16
+	}
+	return false
 }
 
 func (p *parser) parseIPv4(u *Url, input string) (string, error) {
